@@ -4,6 +4,7 @@ import (
 	"fmt"
 	"os"
 	"path/filepath"
+	"regexp"
 	"sort"
 	"strings"
 	"time"
@@ -35,6 +36,8 @@ func listDir(dir string) string {
 	sort.Strings(out)
 	return L(out...)
 }
+
+var createTableRe = regexp.MustCompile("CREATE TABLE `([a-z]+)`")
 
 func suiteFiles(c *ctx) {
 	root := filepath.Join(os.Getenv("VERIF_WORK"), fmt.Sprintf("files-%d", os.Getpid()))
@@ -133,6 +136,43 @@ func suiteFiles(c *ctx) {
 			es = "error"
 		}
 		c.emit(fmt.Sprintf("rd%d", ri), "filesread", q(sf[0]), L(ent...), qs(got), q(es))
+		c.count("read_cases")
+	}
+	// the same through the public entry point with *both* suffixes configured: FromMigrationFolder loads exactly the files
+	// ReadPath names, whatever the down suffix is (seeded change C11-g: files that also end with the down suffix were skipped).
+	// Every file declares one table named after it; the tables loaded, in order, are the observation.
+	for ri, sf := range suffixes {
+		dir := filepath.Join(root, fmt.Sprintf("l%d", ri))
+		os.MkdirAll(filepath.Join(dir, "archive"+sf[0]), 0755)
+		entries := map[string]string{
+			"20200101000000_b" + sf[0]: "xb", "20190101000000_a" + sf[0]: "xa", "20210101000000_c" + sf[0]: "xc",
+			".hidden" + sf[0]: "xh", "notes.txt": "xn", "20200101000000_b" + sf[1] + ".bak": "xk", "zz" + sf[0] + ".orig": "xo",
+		}
+		if sf[1] != "" && sf[1] != sf[0] {
+			entries["20200101000000_b"+sf[1]] = "xd"
+		}
+		for k, v := range entries {
+			os.WriteFile(filepath.Join(dir, k), []byte("CREATE TABLE "+v+" (a int);"), 0644)
+		}
+		var ent []string
+		des, _ := os.ReadDir(dir)
+		for _, de := range des {
+			if !de.IsDir() {
+				ent = append(ent, L(q(de.Name()), q(entries[de.Name()])))
+			}
+		}
+		s := sqlize.NewSqlize(sqlize.WithMigrationFolder(dir), sqlize.WithMigrationSuffix(sf[0], sf[1]))
+		es := guard(func() string {
+			if err := s.FromMigrationFolder(); err != nil {
+				return "error"
+			}
+			return "ok"
+		})
+		var got []string
+		for _, m := range createTableRe.FindAllStringSubmatch(guard(func() string { return s.StringUp() }), -1) {
+			got = append(got, m[1])
+		}
+		c.emit(fmt.Sprintf("ld%d", ri), "filesread", q(sf[0]), L(ent...), qs(got), q(es))
 		c.count("read_cases")
 	}
 	// missing folder => error; load must fail, not panic
